@@ -113,6 +113,9 @@ def run_behaviour(acts, baseline, tag, short=None):
         if act["op"] == "station":
             f = create_station(name, STATIONS[nst % len(STATIONS)], parent_frame=frames[ids[act["parent"] - 1]])
             nst += 1
+        elif act["op"] == "station-eq":
+            f = create_station(name, STATIONS[nst % len(STATIONS)], parent_frame=frames[ids[act["parent"] - 1]], equatorial=True)
+            nst += 1
         elif act["op"] == "user":
             # a user-defined frame: existing axes about an existing centre, under a name of its own
             f = fr.Frame(name, frames[ids[act["parent"] - 1]].orientation, frames[ids[act["ref"] - 1]].center)
